@@ -233,6 +233,26 @@ fn check_users(c: &UsersCase) -> Verdict {
     if !ue.validate_hash_guard() {
         return Verdict::fail("C09:update-entry:own-guard-invalid", "");
     }
+    // ... and the reading direction: a slot written by another implementation, with ANY status byte
+    // and the guard of the published rule over the bytes as they are on disk, is a valid slot
+    {
+        use cascette_client_storage::index::update::UpdatePage;
+        let mut slot = eb;
+        slot[22] = c.status;
+        let g = lookup3::hashlittle(&slot[4..23], 0) | 0x8000_0000;
+        slot[0..4].copy_from_slice(&g.to_le_bytes());
+        let mut page = [0u8; 512];
+        page[..24].copy_from_slice(&slot);
+        let found = UpdatePage::from_bytes(&page).is_some_and(|p| {
+            p.entries().iter().any(|e| e.ekey == k9 && e.archive_location.archive_id == id && e.archive_location.archive_offset == off && e.encoded_size == c.encoded_size)
+        });
+        if !found {
+            return Verdict::fail(
+                "C09:update-entry:slot-with-valid-guard-not-read",
+                format!("UpdatePage::from_bytes does not return the slot {} (status byte {:#04x}, guard = hashlittle(bytes[4..23], 0) | 0x80000000)", hex(&slot), c.status),
+            );
+        }
+    }
     // ResidencyEntry guard
     let ut = match c.utype % 6 {
         0 => ResidencyUpdateType::Invalid,
